@@ -164,6 +164,7 @@ def run(chk, which="C05"):
     dropped = []
     jobs = [(si, sh, fl) for fl in flavours for si, sh in enumerate(shards)]
     results = core.pmap(lambda j: (j[2], j[0], build_and_run(j[0], j[1], j[2], nrandom, dropped)), jobs)
+    core.reach(chk, emit_tu([i for i in insts if i["id"] % 7 == 0][:40]), [[400, 1]])
     per_flavour = {}
     nontrivial = set()
     total = 0
